@@ -538,7 +538,10 @@ func (w *world) post() map[string]any {
 		if c.cancelled() {
 			canc = append(canc, c.id)
 		}
-		if w.stopped[c.id] {
+		// Which instances "Stop returned for" is tracked from the operations' returns in the deterministic mode.
+		// Under truly concurrent stress that bookkeeping would race with the engine (it is not taken under the
+		// engine's locks), so there a stopped instance is one whose context the engine cancelled.
+		if (w.gated && w.stopped[c.id]) || (!w.gated && c.cancelled()) {
 			stop = append(stop, c.id)
 		}
 	}
@@ -555,7 +558,7 @@ func (w *world) post() map[string]any {
 	for _, r := range w.refs {
 		refs = append(refs, r)
 	}
-	return map[string]any{"regs": regs, "running": running, "cancelled": canc, "stopped": stop, "active": act, "refs": refs}
+	return map[string]any{"regs": regs, "running": running, "cancelled": canc, "stopped": stop, "active": act, "refs": refs, "ninst": len(w.insts)}
 }
 
 func strs(ss []string) []any {
